@@ -112,6 +112,24 @@ func c06Opened(p *Play, e *h.Ev) {
 		c.Violate("C06/slot-count", fmt.Sprintf("hand %d: %s", t.State.GameCount, problem), w())
 		return
 	}
+	// explicit clauses of the statement, independent of the clockwise walk
+	for _, ps := range t.State.PlayerStates {
+		if !ps.IsParticipated {
+			continue
+		}
+		hasL := func(l string) bool { return has(ps.Positions, l) }
+		switch {
+		case ps.Seat == b && !hasL("bb"):
+			c.Violate("C06/big-blind-seat-player-not-labelled-bb", fmt.Sprintf("hand %d: %s sits in the big-blind seat %d and is labelled %v", t.State.GameCount, ps.PlayerID, b, ps.Positions), w())
+			return
+		case ps.Seat == s && ps.Seat != b && !hasL("sb"):
+			c.Violate("C06/small-blind-seat-player-not-labelled-sb", fmt.Sprintf("hand %d (dealer/sb/bb seats %d/%d/%d): %s is dealt in, sits in the small-blind seat and is labelled %v", t.State.GameCount, d, s, b, ps.PlayerID, ps.Positions), w())
+			return
+		case ps.Seat != b && ps.Seat != s && (hasL("bb") || hasL("sb")):
+			c.Violate("C06/blind-label-outside-blind-seats", fmt.Sprintf("hand %d (dealer/sb/bb seats %d/%d/%d): %s at seat %d is labelled %v", t.State.GameCount, d, s, b, ps.PlayerID, ps.Seat, ps.Positions), w())
+			return
+		}
+	}
 	seen := map[string]string{}
 	for _, ps := range t.State.PlayerStates {
 		want := exp[ps.PlayerID]
